@@ -32,7 +32,7 @@ var realGrid = []float64{
 var textGrid = []string{
 	"", "a", "A", "abc", "ABC", "Abc", "abc ", "abc  ", "abc\t", "abc\n", "ABC ", "ab", "abd", "abcd", "b", "B",
 	" abc", "é", "É", "éa", "ea", "z", "Z", "[", "@", "`", "{", "a\x00b", "a\x00", "\x00",
-	"12", "12abc", "1e3", " 12", "-7", "3.5", "0x10", "12 ", "+5", "9223372036854775808", "1.0", ".5", "5.",
+	"12", "12abc", "1e3", " 12", "-7", "3.5", "010", "-0755", "007", "00", "0x10", "12 ", "+5", "9223372036854775808", "1.0", ".5", "5.",
 	"2006-01-02 15:04:05", "2006-01-02 15:04:05.123", "2006-01-02", "not a time",
 	"naïve", "日本", "日本語", "\xff\xfe", "a\xffb", "true", "inf", "nan", "1_000",
 	"word", "Word", "WORD", "word ", "wor", "words",
